@@ -7,8 +7,9 @@ LEVEL = "proof"
 RULE = ("harness/src/bin/config.rs: validate_circuit_config over (a) one-at-a-time sweeps of every field over "
         "{0,1,t-1,t,t+1,..,2^32,usize::MAX} from 7 base configs, (b) full products quotient x rate and wires x routed, "
         "(c) all pairs of fields over {t-1,t,t+1}, (d) 2^e-1/2^e/2^e+1 against rates e-1/e/e+1/8, (e) random mixes; the six "
-        "constructors on failing configs (bounded ones first, extreme ones only if those were rejected) with the rejection timed "
-        "(< 5 ms, best of 5; cheapest build is tens of ms) and on a handful of passing configs (real builds); AggConfigArgs "
+        "constructors on failing configs (bounded ones first, extreme ones only if those were rejected cleanly) with the rejection "
+        "metered (heap bytes requested during the call <= 16 KiB - a clean rejection needs < 4 KiB, CircuitBuilder::new far more - "
+        "and < 5 ms, best of 5) and on a handful of passing configs (real builds); AggConfigArgs "
         "through clap::try_parse_from over the same grids (validate verdict and every field of build()). "
         "distinct = distinct (function id, input); non-trivial = the config/flag set is accepted, or fails exactly one "
         "check family (it sits next to the acceptance boundary), or is a constructor probe")
@@ -59,7 +60,12 @@ def judge(case, model_out):
     if case.out == "-1":
         return ("violates", "%s panicked" % what)
     if case.fid == "2802" and case.out == "-3":
-        return ("violates", "a constructor rejected a failing config only after doing build work (slow rejection)")
+        return ("violates", "a constructor rejected a failing config only after doing builder work "
+                            "(more than 16 KiB of heap or more than 5 ms before the Err)")
+    if case.fid == "2803" and case.out.startswith("1 "):
+        built = [int(x, 16) for x in case.out.split()[1:]]
+        if len(built) == 9 and _fails(built) > 0:
+            return ("violates", "the CLI accepted a flag set whose built config fails the structural policy")
     if case.fid == "2802" and case.out == "1" and model_out == "0":
         return ("violates", "a constructor accepted (built) a config that fails the policy")
     return ("violates", "%s differs from the proved model on this input" % what)
